@@ -177,7 +177,10 @@ CONTRACTS = [
     Contract('cpu.strmid', PROPS, ['qvm.cpu:QvmCpu._exec_strmid'], body_mid, cases=[(True,), (False,)]),
     Contract('cpu.space', PROPS, ['qvm.cpu:QvmCpu._exec_space'], body_space),
     Contract('cpu.strlen', PROPS, ['qvm.cpu:QvmCpu._exec_strlen'], body_len),
-    Contract('cpu.strfind', PROPS, ['qvm.cpu:QvmCpu._exec_strfind'], body_instr, explorer={'prove_timeout_ms': 60000}),
+    Contract('cpu.strfind', PROPS, ['qvm.cpu:QvmCpu._exec_strfind'], body_instr, explorer={'prove_timeout_ms': 60000},
+             assumed={'str.find': 'uninterpreted'},
+             trusted=['str.find / str.index: the position is an uninterpreted function of (string, substring, start) with the facts '
+                      '-1 <= r, and r >= 0 implies start <= r <= len(s) - len(sub); code and specification use the same function']),
     Contract('cpu.asc', PROPS, ['qvm.cpu:QvmCpu._exec_asc'], body_asc),
     Contract('cpu.chr', PROPS, ['qvm.cpu:QvmCpu._exec_chr'], body_chr),
     Contract('cpu.strrep', PROPS, ['qvm.cpu:QvmCpu._exec_strrep'], body_strrep, cases=[(True,), (False,)]),
